@@ -46,7 +46,7 @@ func runC02(e *Env) {
 	ruleLimitAccept(e, "C02.limit", "roman")
 	e.S.Floor("C02.limit", 2)
 	e.S.Floor("C02.tab", 36)
-	e.S.Floor("C02.decomp", 6)
+	e.S.Floor("C02.decomp", 7)
 	e.S.Floor("C02.alpha", 36)
 	e.S.Floor("C02.lower", 7)
 	e.S.Floor("C02.zero", 3)
@@ -426,6 +426,99 @@ func ruleC02Decomp(e *Env) {
 		default:
 			e.S.Ok(rule, site, construct, wants[i].fn+"(digit of its position, f) written next", e.posOf(w))
 		}
+	}
+	// single path: apart from the n == 0 exit every return comes after all four writes, each of which is
+	// unconditional (its block dominates the return; the 'M' loop is entered from a block that dominates the
+	// hundreds write), hands back the bytes of that same buffer and a nil error; the buffer is only appended to
+	var zeroBlock *ssa.BasicBlock
+	for _, b := range fn.Blocks {
+		iff, ok := b.Instrs[len(b.Instrs)-1].(*ssa.If)
+		if !ok {
+			continue
+		}
+		if cmp, ok := iff.Cond.(*ssa.BinOp); ok && (cmp.Op == token.EQL || cmp.Op == token.NEQ) {
+			x, y := cmp.X, cmp.Y
+			if _, isC := x.(*ssa.Const); isC {
+				x, y = y, x
+			}
+			if k, isK := flow.ConstInt(y); isK && k == 0 && flow.StripConv(x) == numP {
+				zeroBlock = b.Succs[map[bool]int{true: 0, false: 1}[cmp.Op == token.EQL]]
+				if len(zeroBlock.Preds) != 1 {
+					zeroBlock = nil
+				}
+			}
+		}
+	}
+	buffer := writes[0].Call.Args[0]
+	pathBad := ""
+	var badPos ssa.Instruction
+	for _, w := range writes {
+		if w.Call.Args[0] != buffer {
+			pathBad, badPos = "the four writes do not go to one buffer", w
+		}
+	}
+	for _, b := range fn.Blocks {
+		for _, in := range b.Instrs {
+			call, ok := in.(*ssa.Call)
+			if !ok {
+				continue
+			}
+			if f := call.Call.StaticCallee(); f != nil && strings.HasPrefix(f.String(), "(*bytes.Buffer).") && len(call.Call.Args) > 0 && call.Call.Args[0] == buffer {
+				switch f.Name() {
+				case "Write", "WriteByte", "WriteString", "WriteRune", "Bytes", "Len", "Cap", "String", "Grow":
+				default:
+					pathBad, badPos = "the buffer holding the numeral is modified by "+f.Name()+" besides the four writes", call
+				}
+			}
+		}
+	}
+	nret := 0
+	for _, b := range fn.Blocks {
+		ret, ok := b.Instrs[len(b.Instrs)-1].(*ssa.Return)
+		if !ok || zeroBlock != nil && zeroBlock.Dominates(b) {
+			continue
+		}
+		nret++
+		vals := flow.ReturnValues(ret)
+		for _, w := range writes[1:] {
+			if !w.Block().Dominates(b) {
+				pathBad, badPos = "a return other than the n = 0 exit is reachable without the write of "+flow.FnName(e.C.StaticCallee(&w.Call.Args[1].(*ssa.Call).Call))+" (early exit or conditional write)", ret
+			}
+		}
+		h := writes[0].Block()
+		for h != nil && !h.Dominates(b) {
+			h = h.Idom()
+		}
+		if h == nil || h == writes[1].Block() || !h.Dominates(writes[1].Block()) {
+			pathBad, badPos = "the 'M' loop does not lie on every path to the hundreds write", ret
+		}
+		if len(vals) != 2 {
+			pathBad, badPos = "unexpected result count", ret
+			continue
+		}
+		if c, ok := vals[1].(*ssa.Const); !ok || !c.IsNil() {
+			pathBad, badPos = "a return after the writes carries a non-nil error (the formatter is documented never to fail)", ret
+		}
+		bc, ok := vals[0].(*ssa.Call)
+		if f := (*ssa.Function)(nil); ok {
+			f = bc.Call.StaticCallee()
+			if f == nil || f.String() != "(*bytes.Buffer).Bytes" || bc.Call.Args[0] != buffer {
+				ok = false
+			}
+		}
+		if !ok {
+			pathBad, badPos = "the value returned after the writes is not the content of the buffer written to", ret
+		}
+	}
+	switch {
+	case zeroBlock == nil:
+		e.S.Unk(rule, site, "single path", "no `n == 0` exit found: which returns are the zero case is not decided", e.Pos(fn))
+	case nret == 0:
+		e.S.Unk(rule, site, "single path", "no return after the writes found", e.Pos(fn))
+	case pathBad != "":
+		e.S.Bad(rule, site, "single path", pathBad, e.posOf(badPos), "")
+	default:
+		e.S.Ok(rule, site, "single path", fmt.Sprintf("%d return(s) besides the n = 0 exit: each after all four unconditional writes, returning (buffer.Bytes(), nil)", nret), e.Pos(fn))
 	}
 }
 
